@@ -89,7 +89,10 @@ fn run_end_new_upto4<E: ArrowNativeType + kani::Arbitrary, const NONEMPTY_ONLY: 
     kani::cover!(n == 1 && len > 0);
     kani::cover!(NONEMPTY_ONLY || (n == 0 && len == 0));
 }
-// @unit name=run_end_new_accept_implies_wf props=C09,C01 kind=bounded bound=n<=4_runs_i16 fns=RunEndBuffer<i16>::new mayreject=1 tier=quick mem=3 timeout=300
+// NOT REGISTERED (over-strong contract, see DESIGN.md 9.3 'F4'): with logical_length == 0 the constructor guarantees only
+// 'strictly increasing' (no safe accessor can misbehave, unit run_end_zero_len_accessors_total); the registered contract is the
+// pair run_end_new_accept_implies_wf_nonempty_* + run_end_new_zero_len_guarantee.
+// unit-disabled name=run_end_new_accept_implies_wf props=C09,C01 kind=bounded bound=n<=4_runs_i16 fns=RunEndBuffer<i16>::new mayreject=1 tier=quick mem=3 timeout=300
 #[kani::proof]
 #[kani::unwind(8)]
 fn run_end_new_accept_implies_wf() {
